@@ -147,6 +147,7 @@ type Expect struct {
 	Zone     string // zone cut ("" when refused)
 	Wildcard string // "*.<this>" supplied the candidate records ("" if the name's own)
 	Any      bool   // qtype ANY: the answer only has to be a sub-multiset of Answer
+	Skip     bool   // qtype DS exactly at a delegation point: answered from the parent side by design (RFC 3658), the statement does not define it; only "one response, no panic" is checked
 	Answer   []*Rec // records to appear in the answer section, owner = query name
 	SOA      []*Rec // visible SOA records of the zone (one must be in authority when the answer is empty)
 	NS       []*Rec // visible NS records of the zone cut (referral: authority is exactly these)
@@ -187,6 +188,7 @@ func (w *World) Resolve(name string, qtype uint16, client net.IP) *Expect {
 	e.SOA = ofType(zr, tSOA)
 	if len(e.SOA) == 0 {
 		e.Class = exReferral
+		e.Skip = qtype == tDS && name == z
 		return e
 	}
 	cand := visible(w.rows[name], loc)
@@ -232,6 +234,9 @@ func universe(all []*Item) []string {
 	nodes := map[string]bool{}
 	var add func(n string)
 	add = func(n string) {
+		if !validName(n) { // e.g. a label added in front of the longest name
+			return
+		}
 		for {
 			nodes[n] = true
 			if n == "." {
@@ -266,7 +271,7 @@ func universe(all []*Item) []string {
 	}
 	for n := range nodes { // one fresh sibling under every node
 		s := "nx." + trimRoot(n)
-		if !seen[s] {
+		if !seen[s] && validName(s) {
 			seen[s] = true
 			out = append(out, s)
 		}
